@@ -222,6 +222,68 @@ def run(tier):
             len(idx), case["kind"], case["d"]["k"], (", field '%s' mutated" % case["tag"]) if case.get("tag") else "", len(case["frame"]),
             case["frame"][:48] if len(case["frame"]) < 400 else "[...]", what),
             [{"case": {k: case[k] for k in case if k != "frame"}, "frame": case["frame"] if len(case["frame"]) < 4000 else case["frame"][:200], "out": out}], key=key)
+    # ---- frames back to back in one reader ---------------------------------------------------------------------
+    import re as _re
+    g = tlc("MC_FrameStream", "MC_FrameStream.cfg", workers=2, timeout=300)
+    if not g.ok() or not g.finished:
+        raise ToolError("MC_FrameStream failed: %s" % g.out[-300:])
+    streams = g.json_prints("STREAM")
+    if len(streams) < 1000:
+        raise ToolError("too few frame streams: %d" % len(streams))
+    for k, x in enumerate(streams):
+        x["id"] = k
+    sin, sout = os.path.join(wd, "streams.ndjson"), os.path.join(wd, "streams.out.ndjson")
+    write_ndjson(sin, streams)
+    run_harness("vh-cql", ["c08-stream", sin, sout], timeout=1200)
+    srows = read_ndjson(sout)
+    if len(srows) != len(streams):
+        raise ToolError("c08-stream: %d of %d" % (len(srows), len(streams)))
+    acc, rs_, rej = validate_trace("Trace_FrameStream", "Trace_FrameStream.cfg", sout, timeout=600)
+    if not acc:
+        raise ToolError("Trace_FrameStream did not consume its input (line %s)" % rej)
+    for b in sorted({int(m.group(1)) - 1 for m in _re.finditer(r'<<"BAD", (\d+)>>', rs_.out)})[:5]:
+        x = srows[b]
+        v.violation("frames with bodies of %s bytes written back to back into one reader were read as %s (bytes left over: %s)" % (
+            x["lens"], json.dumps(x["frames"])[:400], x["rest"]), [x])
+    # ---- the tablets custom payload (decoded in the scylla crate) ------------------------------------------------
+    g = tlc("MC_TabletPayload", "MC_TabletPayload.cfg", workers=2, timeout=300)
+    if not g.ok() or not g.finished:
+        raise ToolError("MC_TabletPayload failed: %s" % g.out[-300:])
+    pls = g.json_prints("PAYLOAD")
+    if len(pls) < 2000:
+        raise ToolError("too few tablet payloads: %d" % len(pls))
+    for k, x in enumerate(pls):
+        x["id"] = k
+    tin, tout = os.path.join(wd, "tablets.ndjson"), os.path.join(wd, "tablets.out.ndjson")
+    write_ndjson(tin, pls)
+    tp = run_harness("vh-driver", ["c08", "tablets", tin, tout], timeout=1200, allow_fail=True)
+    trows_all = read_ndjson(tout) if os.path.exists(tout) else []
+    trows = [x for x in trows_all if "start" not in x]
+    if tp.returncode != 0:
+        started = [x["start"] for x in trows_all if "start" in x]
+        done = {x["id"] for x in trows}
+        dead = [i for i in started if i not in done]
+        note = _re.findall(r"ALLOC (\d+)", tp.stderr or "")
+        if not dead:
+            raise ToolError("c08 tablets harness failed rc=%s: %s" % (tp.returncode, (tp.stderr or "")[-300:]))
+        x = pls[dead[-1]]
+        v.violation("tablets-routing-v1 payload of %d bytes (%s, %d replicas): decoding killed the process (%s): %s" % (
+            len(x["payload"]), x["kind"], x["r"], "a single allocation of %s bytes was requested" % note[-1] if note else "rc=%s" % tp.returncode, x["payload"]), [x])
+    else:
+        if len(trows) != len(pls):
+            raise ToolError("c08 tablets: %d of %d" % (len(trows), len(pls)))
+        for x, pl in zip(trows, pls):
+            x["kind"] = pl["kind"]
+        tj = os.path.join(wd, "tablets.j.ndjson")
+        write_ndjson(tj, trows)
+        acc, rt_, rej = validate_trace("Trace_TabletPayload", "Trace_TabletPayload.cfg", tj, timeout=600)
+        if not acc:
+            raise ToolError("Trace_TabletPayload did not consume its input (line %s)" % rej)
+        for b in sorted({int(m.group(1)) - 1 for m in _re.finditer(r'<<"BAD", (\d+)>>', rt_.out)})[:5]:
+            x = trows[b]
+            v.violation("tablets-routing-v1 payload of %d bytes (%s): decoded with ok=%s panic=%s peak memory %s bytes: %s" % (
+                x["len"], x["kind"], x["ok"], x["panic"], x["peak"], pls[b]["payload"]), [dict(x, payload=pls[b]["payload"])])
+    v.add(frame_streams=len(streams), tablet_payloads=len(pls))
     kinds = {}
     for c in cases:
         kinds[c["kind"]] = kinds.get(c["kind"], 0) + 1
@@ -249,7 +311,8 @@ def run(tier):
     v.assumptions += [
         "memory 'in proportion' is formalised as peak <= 16 MiB + 64 x input bytes (a fixed budget no 16-bit count can exceed, plus proportional growth) for header + extensions + response + dynamic rows (4x that including 22 typed targets)",
         "the decoding stack is 2 MiB (a tokio worker's); an input that needs longer than 10 s is re-run with 120 s and only reported if it still does not finish",
-        "custom payload map values are never null in well-formed frames (the driver refuses them with an error); RawTablet::from_custom_payload is exercised by C15's payload alphabet",
+        "custom payload map values are never null in well-formed frames (the driver refuses them with an error); what RawTablet::from_custom_payload decodes TO is judged by C15; here its termination / memory on well-formed, truncated and field-mutated payloads",
+        "frames back to back: in-memory reader that hands out everything available at once (the worst case for a reader that over-reads)",
         "compressed well-formed frames use literal-only ('stored') LZ4 / Snappy streams written by the specification; codec internals are lz4_flex's / snap's"]
     return v.finish()
 
